@@ -50,7 +50,7 @@ func (e *engine) checkWordLine(worker int, raw []byte) error {
 	if ln.Valid && (ln.Root == "obj" || ln.Root == "arr") || !ln.Valid && len(w) >= 3 {
 		e.rep.Sample(map[string]interface{}{"word": string(w), "spec_valid": ln.Valid, "spec_root": ln.Root})
 	}
-	if len(w) == 0 && ln.MaxDepth > 0 && (e.prop == "C16" || e.prop == "C04") {
+	if len(w) == 0 && ln.MaxDepth > 0 && (e.prop == "C16" || e.prop == "C04") && e.extra["nodepth"] == "" {
 		e.depthLimit(worker, ln.MaxDepth)
 	}
 	// the independent reader must agree with the specification's grammar (projection self-check)
